@@ -3,7 +3,7 @@ CONSTANTS
   ErrKinds = {"none", "ei"}
   PayloadCounts = {0, 2}
   Kits = {"lean", "rich"}
-  Profiles = {"A", "B"}
+  Profiles = {"A", "B", "E"}
   MaxLen = 2
   MaxDev = 1
   RunChecker = FALSE
